@@ -14,6 +14,9 @@ pub mod fax {
     pub broadcast axiom fn ax_mul_obeys() ensures #[trigger] <f32 as MulSpec>::obeys_mul_spec();
     pub broadcast axiom fn ax_div_obeys() ensures #[trigger] <f32 as DivSpec>::obeys_div_spec();
     pub broadcast axiom fn ax_eq_obeys() ensures #[trigger] <f32 as PartialEqSpec>::obeys_eq_spec();
+    // IEEE-754 `==` is symmetric (the one algebraic law assumed of the operators: it is boolean-valued and exact, so
+    // `a == b` and `b == a` in the code are the same test)
+    pub broadcast axiom fn ax_eq_sym(a: f32, b: f32) ensures #[trigger] a.eq_spec(&b) == b.eq_spec(&a);
     pub broadcast axiom fn ax_ord_obeys() ensures #[trigger] <f32 as PartialOrdSpec>::obeys_partial_cmp_spec();
     // Casts and negation: Verus gives `x as f32` / `x as i64` an unspecified result and rejects unary minus on
     // floats, so the extraction rewrites them to named total functions (logged as rewrites S with the site count).
@@ -23,7 +26,7 @@ pub mod fax {
     pub uninterp spec fn fabs_spec(x: f32) -> f32;
     pub broadcast group a1 {
         ax_add_req, ax_sub_req, ax_mul_req, ax_div_req, ax_add_obeys, ax_sub_obeys, ax_mul_obeys, ax_div_obeys,
-        ax_eq_obeys, ax_ord_obeys,
+        ax_eq_obeys, ax_ord_obeys, ax_eq_sym,
     }
 }
 // (each unit writes its single module-level `broadcast use` naming fax::a1 plus its own literal-fact groups)
